@@ -17,7 +17,7 @@ PROPERTY = 'C11'
 LEVEL = 'exploration'
 RULE = ('cross product ping_interval(8, incl. fractional and (interval,grace)) '
         'x ping_timeout(4) x max_http_buffer_size(3) x allow_upgrades(2) x '
-        'transports(3) x cookie(6 forms) x connect-handler outcome(17: None, True, False, numbers incl. 1 and 1.0 which equal True, strings, containers, raise) x open '
+        'transports(3) x cookie(6 forms) x connect-handler outcome(18: None, True, False, numbers incl. 1 and 1.0 which equal True, strings, containers, raise) x open '
         'kind(polling, websocket, JSONP) x server(threaded, asyncio) [+ '
         'websocket driver unavailable]; in every other cell the connect handler '
         'also sends a message to the new sid; thorough = the whole grid, quick = '
@@ -40,7 +40,7 @@ AU = [True, False]
 TR = [None, 'polling', 'websocket']
 CK = ['none', 'str', 'dict', 'flagT', 'flagF', 'callable']
 OUT = [None, True, False, 0, '', 'no', {'e': 1}, [1], 'raise',
-       1, 1.0, 2, -1, 0.0, [], {}, 'True']
+       1, 1.0, 2, -1, 0.0, [], {}, 'True', 'raise-type']
 KIND = ['polling', 'websocket', 'jsonp']
 SRV = ['T', 'A']
 DEFAULT = (25, 20, 10 ** 6, True, None, 'none', None, 'polling')
@@ -151,7 +151,8 @@ def _cell(rec, sim, case, pi, pt, mb, au, tr, cookie_expect, out, okind,
     hsid = connects[0]['sid']
     if not accept:
         rec.count('reject_followups')
-        want_body = out if (out and out != 'raise') else None
+        want_body = out if (out and out not in ('raise', 'raise-type')) \
+            else None
         if okind == 'websocket' and srv == 'A':
             ws = h.ws
             if ws.accepted or not ws.server_closed:
